@@ -53,7 +53,10 @@ func (self *printer) printComments(node *AstNode, prefix string) {
 		self.buf.WriteString("\"\n#\n\n")
 	}
 	for _, c := range node.scopeComments {
-		if self.lastComment.Line != 0 && self.lastComment.Line == c.Loc.Line-2 {
+		if self.lastComment.Line != 0 && self.lastComment.Line == c.Loc.Line-2 &&
+			!strings.HasSuffix(self.buf.String(), NEWLINE+NEWLINE) {
+			// Keep the empty line before the comment, unless one was
+			// already written after the previous element.
 			self.buf.WriteString(NEWLINE)
 		}
 
